@@ -10,9 +10,15 @@
 (*   <<"tuple","",<<t1,..>>>>     fixed-length tuple                                          *)
 (*   <<"type","",<<t>>>>          Type[C]                                                      *)
 (*   <<"callable","",<<>>>>       Callable (any signature)                                    *)
+(*   <<"callsig","",<<A1,..,An,R>>>>  Callable[[A1..An], R] (the last argument is the result)  *)
 (* Value terms are pairs <<class name, parts>>: parts = element value terms (list, set,       *)
 (* frozenset, tuple), <<k, v>> pairs (dict), <<<<class name, <<>>>>>> for class objects ("$class"),     *)
 (* <<>> otherwise ("$fn" = a function / lambda / builtin function).                           *)
+(* A function VALUE whose signature is known is <<"$def", sig>> with sig a record                *)
+(*   [form, mand, opt, star, kwreq, kwdef, kwargs]: form "def" | "lambda" | "method" (bound),     *)
+(*   mand/opt = number of positional parameters without/with default, star = has *args,         *)
+(*   kwreq/kwdef = number of keyword-only parameters without/with default, kwargs = has **kw;   *)
+(*   every parameter is an int and the result is an int (see CanCall / "callsig" below).        *)
 EXTENDS Naturals, Sequences, FiniteSets, TLC
 
 (* Class hierarchy: user classes B < A, C; builtins.  Mro[c] = linearisation of c. *)
@@ -57,7 +63,31 @@ IterElems(v) ==
 IsIterable(v) == v[1] \in {"list", "tuple", "set", "frozenset", "dict", "str", "bytes"}
 IsSequence(v) == v[1] \in {"list", "tuple", "str", "bytes"}
 KnownShape(v) == v[1] \in {"list", "tuple", "set", "frozenset", "dict", "str", "bytes", "int",
-                           "bool", "float", "complex", "NoneType", "$class", "$fn"}
+                           "bool", "float", "complex", "NoneType", "$class", "$fn", "$def"}
+
+(* ---- function values against Callable[[A1..An], R] ------------------------------------------ *)
+(* A function inhabits Callable[[A1..An], R] iff it can be called with exactly n positional      *)
+(* arguments (of types A1..An) and then returns an R.  Calling with n positionals binds iff      *)
+(*   mand <= n  (no positional parameter without default is left over)                            *)
+(*   n <= mand + opt  or the function has *args                                                   *)
+(*   kwreq = 0  (a keyword-only parameter without default can never be supplied positionally).    *)
+(* Keyword-only parameters WITH a default and **kwargs are irrelevant.  (Confirmed against       *)
+(* CPython by calling every function value of the grammar with every n, harness/c02.py.)          *)
+(* Documented deviations of pytype's matcher (Signature.mandatory_param_count /                   *)
+(* maximum_param_count count positional and keyword-only parameters alike):                       *)
+(*   "kwonlypos"  keyword-only parameters are counted like positional ones: those without        *)
+(*                default raise the minimum, all of them raise the maximum                        *)
+(*   "kwargsvar"  **kwargs lifts the maximum like *args does                                      *)
+CanCallD(s, n, D) ==
+  LET kp == "kwonlypos" \in D
+      lo == s.mand + (IF kp THEN s.kwreq ELSE 0)
+      hi == s.mand + s.opt + (IF kp THEN s.kwreq + s.kwdef ELSE 0)
+      unbounded == s.star \/ ("kwargsvar" \in D /\ s.kwargs)
+  IN lo <= n /\ (unbounded \/ n <= hi) /\ (kp \/ s.kwreq = 0)
+CanCall(s, n) == CanCallD(s, n, {})
+(* "$fn" is rendered as the identity lambda of one positional parameter *)
+FnSig == [form |-> "lambda", mand |-> 1, opt |-> 0, star |-> FALSE, kwreq |-> 0, kwdef |-> 0,
+          kwargs |-> FALSE]
 
 (* AdmitsG(H, S, t, v, D): membership of value v in type t.                                        *)
 (*   H  class hierarchy (see IsSubH)                                                               *)
@@ -85,7 +115,7 @@ AdmitsG(H, S, t, v, D) ==
     [] t[1] = "nothing" -> FALSE
     [] t[1] = "cls" ->
          IF v[1] = "$class" THEN t[2] \in {"object", "type"}
-         ELSE IF v[1] = "$fn" THEN t[2] \in {"object", "function", "Callable"}
+         ELSE IF v[1] \in {"$fn", "$def"} THEN t[2] \in {"object", "function", "Callable"}
          ELSE IsSubPH(H, v[1], t[2]) \/ ("nonebool" \in D /\ t[2] = "bool" /\ v[1] = "NoneType")
     [] t[1] = "union" -> \E k \in DOMAIN t[3] : AdmitsG(H, S, t[3][k], v, D)
     [] t[1] = "gen" ->
@@ -110,7 +140,13 @@ AdmitsG(H, S, t, v, D) ==
          /\ \A k \in DOMAIN t[3] : AdmitsG(H, S, t[3][k], v[2][k], D)
     [] t[1] = "type" ->
          v[1] = "$class" /\ (t[3][1][1] # "cls" \/ IsSubH(H, v[2][1][1], t[3][1][2]))
-    [] t[1] = "callable" -> v[1] \in {"$fn", "$class"} \/ (S /\ ~KnownShape(v))
+    [] t[1] = "callable" -> v[1] \in {"$fn", "$def", "$class"} \/ (S /\ ~KnownShape(v))
+    [] t[1] = "callsig" ->       \* all Ai and R are int in the understood fragment (see Understood)
+         LET n == Len(t[3]) - 1 IN
+         CASE v[1] = "$def" -> CanCallD(v[2], n, D)
+           [] v[1] = "$fn" -> S \/ CanCallD(FnSig, n, D)
+           [] v[1] = "$class" -> TRUE     \* constructor signatures: outside the language (Judgeable)
+           [] OTHER -> S /\ ~KnownShape(v)
     [] OTHER -> TRUE          \* forms outside the language admit everything (never an alarm)
 
 AdmitsD(t, v, D) == AdmitsG(Mro, FALSE, t, v, D)
@@ -119,8 +155,15 @@ Admits(t, v) == AdmitsG(Mro, FALSE, t, v, {})
 (* forms the exactness reading (C02) understands *)
 RECURSIVE Understood(_)
 Understood(t) ==
-  /\ t[1] \in {"any", "cls", "union", "gen", "tuple", "type", "callable"}
+  /\ t[1] \in {"any", "cls", "union", "gen", "tuple", "type", "callable", "callsig"}
+  /\ (t[1] = "callsig" => Len(t[3]) >= 1 /\ \A k \in DOMAIN t[3] : t[3][k] = <<"cls", "int", <<>>>>)
   /\ (t[1] = "gen" => t[2] \in {"list", "set", "frozenset", "tuplevar", "dict", "Mapping",
                                 "Sequence", "Iterable"})
   /\ \A k \in DOMAIN t[3] : Understood(t[3][k])
+
+(* pairs the exactness reading judges: whether a CLASS object inhabits Callable[[A1..An], R]    *)
+(* depends on constructor signatures, which value terms do not carry                             *)
+RECURSIVE HasCallsig(_)
+HasCallsig(t) == t[1] = "callsig" \/ \E k \in DOMAIN t[3] : HasCallsig(t[3][k])
+Judgeable(t, v) == ~(v[1] = "$class" /\ HasCallsig(t))
 =============================================================================
